@@ -89,6 +89,13 @@ def check_case(case, res=None):
                 f.write(data)
         with open(os.path.join(out_b, "zzz_unrelated.txt"), "w") as f:
             f.write("keep me")
+        # stale modules left over from an earlier, different specification
+        stale = {"zzz_stale_type.py": b"class ZzzStaleType:\n    pass\n",
+                 os.path.join("net", "zzz_stale_type.py"): b"class ZzzStaleNetType:\n    pass\n"}
+        for rel, data in stale.items():
+            os.makedirs(os.path.dirname(os.path.join(out_b, rel)), exist_ok=True)
+            with open(os.path.join(out_b, rel), "wb") as f:
+                f.write(data)
         gm = genpkg.generator_module()
         real_walk = os.walk
         import contextlib
@@ -110,6 +117,8 @@ def check_case(case, res=None):
         files_b = _read_out(out_b)
         if files_b.pop("zzz_unrelated.txt", None) != b"keep me":
             raise Violation("unrelated_file_preserved", cj, "kept", "removed or changed")
+        for rel in stale:
+            files_b.pop(rel, None)   # stale files may stay or go; they must not influence what is generated
         bad = _diff(files_a, files_b)
         if bad:
             raise Violation("output_independent_of_walk_order_and_reruns", cj, "identical", f"differs: {bad[:5]}")
